@@ -26,7 +26,11 @@ MANIFEST = dict(
          '(the property). Visibility lumps are decoded by an independent reader and compared with the layout the specification '
          'prescribes; static props are round-tripped in all 13 format versions against the field-presence table; boundary values '
          'of the integer and string fields are judged by the Fits law; all views parsed from independently encoded files of every '
-         'layout are transplanted into an empty BSP and must project equal after save and re-read. The deferred-offset writer used by the binary writers (binformat.DeferredWrites) has its own model (Deferred), transitions replayed by path on the real class over a BytesIO.',
+         'layout are transplanted into an empty BSP and must project equal after save and re-read. The optional parts of each '
+         'structured value (brush model keyvalues x solids, overlay faces/fades/levels, cubemap count x size, static prop count x '
+         'leafs x format, detail prop kinds, entity keys x outputs x separator, visibility None/0/n clusters, texinfo/texdata sharing '
+         'patterns, brush side counts, primitive vertex/index counts, pakfile and texture-name lists) are enumerated by TLC as '
+         'independent cross products, realised with generic values, and must come back as enumerated. The deferred-offset writer used by the binary writers (binformat.DeferredWrites) has its own model (Deferred), transitions replayed by path on the real class over a BytesIO.',
     design_ref='4 (C11)',
     note='Trusts TLC, the independent BSP synthesiser/decoder (vlib/bspsynth.py) and the tagging of objects by scalar fields. '
          'Float fields carry float32-representable values. Pure-Python tree only.',
@@ -37,7 +41,7 @@ ASSUMPTIONS = ['pure-Python srctools from /repo/src (Cython accelerators cannot 
                'float fields are given float32-representable values, so equality is exact',
                'TLC 1.8 evaluates BspTablesOps correctly']
 
-KINDS = ('rle', 'unrle', 'foi', 'foe', 'vis', 'graph', 'prop', 'fits', 'rt')
+KINDS = ('rle', 'unrle', 'foi', 'foe', 'vis', 'graph', 'prop', 'fits', 'rt', 'part')
 
 
 def sig_of(m: dict) -> dict:
@@ -95,6 +99,13 @@ def run(tier: str, seed: int) -> int:
         worlds = [p['w'] for p in rd.prints if isinstance(p, dict) and p.get('tag') == 'WORLD']
         diag = {p['what']: p for p in rd.prints if isinstance(p, dict) and p.get('tag') == 'DIAG'}
         fam = [p for p in rd.prints if isinstance(p, dict) and p.get('tag') == 'FAMILY'][0]['rle']
+        parts_list = [p['c'] for p in rd.prints if isinstance(p, dict) and p.get('tag') == 'PART']
+        done = [p for p in rd.prints if isinstance(p, dict) and p.get('tag') == 'DIAGDONE'][0]
+        if not parts_list or len(parts_list) != done['parts']:
+            raise core.MachineryError(f'{len(parts_list)} part combinations printed, the spec has {done["parts"]}')
+        pf = work.path('parts.json')
+        pf.write_text(json.dumps(parts_list))
+        cov['tlc_part_combinations'] = len(parts_list)
         if len(worlds) < 1000:
             raise core.MachineryError(f'only {len(worlds)} worlds enumerated')
         wf = work.path('worlds.json')
@@ -113,7 +124,8 @@ def run(tier: str, seed: int) -> int:
         parts = 16
         jobs = [('funcs', ['funcs', ef, work.path('funcs.ndjson')]), ('vis', ['vis', work.path('vis.ndjson')]),
                 ('props', ['props', work.path('props.ndjson')]), ('fits', ['fits', work.path('fits.ndjson')]),
-                ('transplant', ['transplant', work.path('transplant.ndjson')])]
+                ('transplant', ['transplant', work.path('transplant.ndjson')]),
+                ('parts', ['parts', pf, work.path('parts.ndjson')])]
         jobs += [(f'graph{n}', ['graph', n, parts, work.path(f'graph{n}.ndjson'), wf]) for n in range(parts)]
 
         def one(job):
@@ -127,6 +139,8 @@ def run(tier: str, seed: int) -> int:
             pass    # reported through the crash records below; the coverage handshakes cannot hold
         elif stats['funcs']['rle_family'] != fam:
             raise core.MachineryError(f'coverage handshake: driver ran {stats["funcs"]["rle_family"]} run patterns, the spec has {fam}')
+        if not crashed and stats['parts']['parts'] != len(parts_list):
+            raise core.MachineryError('coverage handshake: not every part combination was realised')
         if not crashed and stats['funcs']['finder_edges'] != len(edges):
             raise core.MachineryError('coverage handshake: not every edge of the table machine was replayed')
         need = len(worlds) if tier == 'thorough' else len(worlds) // 2 - parts
@@ -143,7 +157,7 @@ def run(tier: str, seed: int) -> int:
                     if cand.exists():
                         f.write(cand.read_text())
         files = []
-        for x in ('funcs', 'vis', 'props', 'fits', 'transplant'):
+        for x in ('funcs', 'vis', 'props', 'fits', 'transplant', 'parts'):
             for cand in (work.path(x + '.ndjson'), work.path(x + '.ndjson.crash')):
                 if cand.exists() and cand.stat().st_size:
                     files.append(cand)
